@@ -1,5 +1,7 @@
 import Driver.Proto
 import Driver.C21
+import Driver.C06
+import Driver.C08
 /-
   Model driver: reads one request per line on stdin (`<suite> <op> <args…>`), answers one
   line per request on stdout.  Imports models only (no Mathlib, no proofs).
@@ -9,6 +11,8 @@ open Driver
 def dispatch (fs : List String) : String :=
   match fs with
   | "c21" :: rest => Driver.c21 rest
+  | "c06" :: rest => Driver.c06 rest
+  | "c08" :: rest => Driver.c08 rest
   | _ => "bad-op"
 
 partial def loop (h : IO.FS.Stream) (out : IO.FS.Stream) : IO Unit := do
